@@ -61,7 +61,11 @@ func (c *compiler) compileChange(achange *parse.Change) *Change {
 
 	ldots := mc.dots
 	rdots := rc.dots
-	connectDots(c.fset, ldots, rdots, rc.dotAssoc)
+	if err := connectDots(c.fset, ldots, rdots, rc.dotAssoc); err != nil {
+		// A "..." of the "+" side that belongs to none of the "-" side
+		// would silently stand for nothing.
+		c.errf(token.NoPos, "%v", err)
+	}
 
 	return &Change{
 		Name:     achange.Name, // TODO(abg): validate name
